@@ -344,11 +344,18 @@ func (c *Chunker) Chunk(doc *model.Document) (*ChunkResult, error) {
 	// Build document sections from headings
 	sections := c.buildSections(doc)
 
-	// Process each section into chunks
+	// Process each section, followed by its subsections, into chunks
 	chunkIndex := 0
-	for _, section := range sections {
+	var emit func(section *Section)
+	emit = func(section *Section) {
 		sectionChunks := c.chunkSection(section, &chunkIndex, doc.Metadata.Title)
 		result.Chunks = append(result.Chunks, sectionChunks...)
+		for _, child := range section.Children {
+			emit(child)
+		}
+	}
+	for _, section := range sections {
+		emit(section)
 	}
 
 	// If no sections were created, chunk by paragraphs
@@ -521,7 +528,7 @@ func (c *Chunker) buildSections(doc *model.Document) []*Section {
 	var preambleStartPage, preambleEndPage int
 
 	for pageNum, page := range doc.Pages {
-		pageIndex := pageNum + 1
+		pageIndex := pageNumberOf(page, pageNum)
 
 		if page.Layout == nil {
 			continue
@@ -541,6 +548,7 @@ func (c *Chunker) buildSections(doc *model.Document) []*Section {
 				}
 				sections = append(sections, preambleSection)
 				preambleContent = nil
+				preambleStartPage = 0
 			}
 
 			// Create new section for this heading
@@ -585,14 +593,22 @@ func (c *Chunker) buildSections(doc *model.Document) []*Section {
 				sectionStack = append(sectionStack, newSection)
 			} else {
 				// Minor heading - include in current section's content
+				elem := ContentElement{
+					Type: model.ElementTypeHeading,
+					Text: heading.Text,
+					Page: pageIndex,
+					BBox: heading.BBox,
+				}
 				if len(sectionStack) > 0 {
 					currentSection := sectionStack[len(sectionStack)-1]
-					currentSection.Content = append(currentSection.Content, ContentElement{
-						Type: model.ElementTypeHeading,
-						Text: heading.Text,
-						Page: pageIndex,
-						BBox: heading.BBox,
-					})
+					currentSection.Content = append(currentSection.Content, elem)
+					currentSection.PageEnd = pageIndex
+				} else {
+					preambleContent = append(preambleContent, elem)
+					if preambleStartPage == 0 {
+						preambleStartPage = pageIndex
+					}
+					preambleEndPage = pageIndex
 				}
 			}
 		}
@@ -643,8 +659,8 @@ func (c *Chunker) buildSections(doc *model.Document) []*Section {
 		}
 	}
 
-	// Handle any remaining preamble content
-	if len(preambleContent) > 0 && len(sections) == 0 {
+	// Handle any remaining preamble content (the document has no major heading)
+	if len(preambleContent) > 0 {
 		preambleSection := &Section{
 			Title:     "",
 			Path:      nil,
@@ -712,6 +728,14 @@ func (c *Chunker) chunkSection(section *Section, chunkIndex *int, docTitle strin
 
 	text := textBuilder.String()
 	if strings.TrimSpace(text) == "" {
+		// A heading without content of its own still belongs to the document:
+		// emit it as a chunk of its own so that it is not lost.
+		if strings.TrimSpace(section.Title) != "" {
+			chunk := c.createChunk(section.Title, section, *chunkIndex, docTitle,
+				[]string{model.ElementTypeHeading.String()}, false, false, false, nil)
+			chunks = append(chunks, chunk)
+			*chunkIndex++
+		}
 		return chunks
 	}
 
@@ -872,6 +896,11 @@ func (c *Chunker) splitSectionByParagraphs(section *Section, chunkIndex *int, do
 				// Atomic block exceeds max - split by sentences as last resort
 				for _, atomicElem := range atomicElements {
 					if len(atomicElem.Text) > c.config.MaxChunkSize {
+						// Flush pending content (e.g. the list's intro) first
+						// so that the chunks stay in document order
+						if currentText.Len() > 0 {
+							flushChunk()
+						}
 						sentenceChunks := c.splitBySentences(atomicElem.Text, section, chunkIndex, docTitle, atomicElem)
 						chunks = append(chunks, sentenceChunks...)
 					} else {
@@ -1074,10 +1103,14 @@ func (c *Chunker) chunkByParagraphs(doc *model.Document, chunkIndex *int) []*Chu
 		PageStart: 1,
 		PageEnd:   doc.PageCount(),
 	}
+	if n := len(doc.Pages); n > 0 {
+		section.PageStart = pageNumberOf(doc.Pages[0], 0)
+		section.PageEnd = pageNumberOf(doc.Pages[n-1], n-1)
+	}
 
 	// Collect all paragraphs
 	for pageNum, page := range doc.Pages {
-		pageIndex := pageNum + 1
+		pageIndex := pageNumberOf(page, pageNum)
 		if page.Layout == nil {
 			continue
 		}
@@ -1150,6 +1183,15 @@ func (c *Chunker) calculateStats(chunks []*Chunk) ChunkStats {
 }
 
 // Helper functions
+
+// pageNumberOf returns the page's own number, or its 1-indexed position when
+// the page has none.
+func pageNumberOf(page *model.Page, index int) int {
+	if page != nil && page.Number > 0 {
+		return page.Number
+	}
+	return index + 1
+}
 
 // countWords counts the number of words in text
 func countWords(text string) int {
